@@ -5,7 +5,7 @@ use vstd::prelude::*;
 use std::cmp::min;
 use std::borrow::Cow;
 
-// ---- stand-in for the foreign crate encoding_rs (outside verus!: never verified, never given a body; only so that the verbatim
+// TRUSTED: A-enc. ---- stand-in for the foreign crate encoding_rs (outside verus!: never verified, never given a body; only so that the verbatim
 // text of XlsEncoding::{high_byte, decode_to} type-checks). Everything about it is assumed (A-enc), see `decode` below.
 pub struct Encoding { _opaque: u8 }
 impl PartialEq for Encoding { fn eq(&self, _o: &Encoding) -> bool { unimplemented!() } }
@@ -18,7 +18,7 @@ impl Encoding {
 
 verus! {
 
-// the verified configuration is a 64-bit target (rustc checks this declaration against the real layout when the file is compiled)
+// TRUSTED: the verified configuration is a 64-bit target (rustc checks this declaration against the real layout when the file is compiled)
 global size_of usize == 8;
 
 // ---- stand-ins for foreign error payload types (opaque; never inspected by the verified code)
@@ -26,6 +26,7 @@ pub mod cfb { pub struct CfbError; }
 pub mod vba { pub struct VbaError; }
 #[verifier::external_type_specification] #[verifier::external_body] pub struct ExIoError(std::io::Error);
 
+// TRUSTED: opaque foreign types (error payload, encoding table): never inspected by the verified code
 #[verifier::external_type_specification] #[verifier::external_body] pub struct ExEncoding(Encoding);
 
 //@@ item src/xls.rs enum XlsError cfg_off=picture
@@ -235,6 +236,13 @@ pub open spec fn dt_bytes(eff: Option<bool>, stream: Seq<u8>, len: int) -> Seq<u
         r.1 == dt_ub(eff_hb(*self, high_byte), stream@.len() as int, len as int),
         final(s)@ == old(s)@ + decode(*self, dt_bytes(eff_hb(*self, high_byte), stream@, len as int)),
 //@@ end
+// TRUSTED: A-enc: `decode_all` is the foreign decoder applied to the whole slice (this is the definition of `decode`)
+//@@ fn src/cfb.rs XlsEncoding::decode_all props=C19 ret=r external_body
+//@@ sig
+    ensures
+        //# C19.decode_all
+        r@ == decode(*self, stream@),
+//@@ end
 //@@ endimpl
 
 // =====================================================================================================
@@ -400,6 +408,8 @@ spec fn same_record(a: Record, b: Record) -> bool { a.typ == b.typ && (a.cont is
 //@@ after /len -= [^;]*;/
             proof {
                 let f3 = frags(*self);
+                //# C12.skip_keeps_rest
+                // the l skipped bytes are dropped from the front of the current fragment, the rest stays
                 assert(f3 =~= adv(f2, l as int));
                 assert(f3.drop_first() =~= f2.drop_first());
                 lemma_total_unfold(f3);
@@ -420,6 +430,10 @@ spec fn same_record(a: Record, b: Record) -> bool { a.typ == b.typ && (a.cont is
         //# C12.dbcs_cursor
         res is Ok ==> dbcs_spec(*encoding, frags(*old(r)), len as nat, high_byte) is Some
             && frags(*final(r)) == dbcs_spec(*encoding, frags(*old(r)), len as nat, high_byte)->Some_0.1,
+        //# C12.dbcs_units
+        // the runs that were decoded hold exactly `len` characters (UTF-16 code units) in total
+        res is Ok ==> dbcs_segs(frags(*old(r)), len as nat, high_byte) is Some
+            && segs_units(dbcs_segs(frags(*old(r)), len as nat, high_byte)->Some_0.0) == len,
         //# C12.dbcs_err_iff_eos
         res is Err <==> dbcs_segs(frags(*old(r)), len as nat, high_byte) is None,
         //# C12.dbcs_err_kind
@@ -483,6 +497,8 @@ spec fn same_record(a: Record, b: Record) -> bool { a.typ == b.typ && (a.cont is
                         None => { assert(dbcs_segs(f1, len1, hb1) is None); }
                     }
                 }
+//@@ before /Ok\(s\)/
+    proof { lemma_dbcs_units(f0, n0, hb0); }
 //@@ before /return Err\(XlsError::EoStream/
                 proof { assert(f1.len() == 1); assert(dbcs_segs(f1, len1, hb1) is None); }
 //@@ end
@@ -560,6 +576,9 @@ proof fn lemma_neg_i32_as_usize(x: i32)
     assert((x as usize) >= 0xffff_ffff_8000_0000usize) by (bit_vector) requires x < 0;
 }
 
+// own module: smaller proof context
+mod m_rich {
+use super::*;
 //@@ fn src/xls.rs read_rich_extended_string props=C12,C19 entry ret=res
 //@@ sig
     ensures
@@ -572,7 +591,7 @@ proof fn lemma_neg_i32_as_usize(x: i32)
         //# C12.sst_item_frame
         same_record(*old(r), *final(r)),
 //@@ body
-    hide(skip_spec); hide(dbcs_segs); hide(total); hide(segs_text); hide(segs_units); hide(flat); hide(frags);
+    hide(skip_spec); hide(dbcs_segs); hide(total); hide(segs_text); hide(segs_units); hide(frags);
     let ghost r0 = *r;
     let ghost f0 = frags(*r);
     let ghost e = *encoding;
@@ -612,14 +631,16 @@ proof fn lemma_neg_i32_as_usize(x: i32)
             lemma_total_unfold(f2);
             assert(total(f2) <= total(f1));
             lemma_dbcs_units(f2, h.cch, h.hb);
+            // what the two skips will meet (stated up front on the specification's cursors, so that no annotation hangs on the skip statements)
+            if dbcs_segs(f2, h.cch, h.hb) is Some {
+                let g = dbcs_segs(f2, h.cch, h.hb)->Some_0.1;
+                lemma_skip_spec_total(g, (4 * h.crun) as nat);
+                if skip_spec(g, (4 * h.crun) as nat) is Some {
+                    lemma_skip_spec_total(skip_spec(g, (4 * h.crun) as nat)->Some_0, cb_ext_rst as nat);
+                }
+            }
         }
     }
-//@@ before /r\.skip\(c_run/
-    let ghost f3 = frags(*r);
-    proof { if str_hdr(d) is Some { lemma_skip_spec_total(f3, (4 * h.crun) as nat); } }
-//@@ before /r\.skip\(cb_ext_rst/
-    let ghost f4 = frags(*r);
-    proof { if str_hdr(d) is Some { lemma_skip_spec_total(f4, cb_ext_rst as nat); } }
 //@@ end
 
 /// the texts of `n` consecutive strings starting at cursor `f`, and the cursor after them
@@ -645,6 +666,7 @@ pub open spec fn sst_spec(e: XlsEncoding, f: Seq<Seq<u8>>) -> Option<Seq<Seq<cha
         match sst_items(e, adv(f, 8), sst_count(f[0]) as nat) { Some((ts, g)) => Some(ts), None => None }
     }
 }
+pub open spec fn str_view(s: String) -> Seq<char> { s@ }
 pub open spec fn texts(v: Seq<String>) -> Seq<Seq<char>> { Seq::new(v.len(), |i: int| v[i]@) }
 
 //@@ props C12,C19
@@ -663,9 +685,48 @@ proof fn lemma_sst_items_len(e: XlsEncoding, f: Seq<Seq<u8>>, n: nat)
     if n > 0 && sst_item(e, f) is Some { lemma_sst_items_len(e, sst_item(e, f)->Some_0.1, (n - 1) as nat); }
 }
 
+/// a string never gives bytes back: the cursor after it has no more bytes left than the cursor before it
+proof fn lemma_sst_item_total(e: XlsEncoding, f: Seq<Seq<u8>>)
+    requires f.len() >= 1,
+    ensures sst_item(e, f) is Some ==> total(sst_item(e, f)->Some_0.1) <= total(f) && sst_item(e, f)->Some_0.1.len() >= 1,
+{
+    if sst_item(e, f) is Some {
+        let f1 = if f[0].len() == 0 && f.len() > 1 { next_frag(f) } else { f };
+        lemma_total_unfold(f); lemma_total_unfold(f1);
+        let h = str_hdr(f1[0])->Some_0;
+        let f2 = adv(f1, h.hlen);
+        assert(f2.drop_first() =~= f1.drop_first());
+        lemma_total_unfold(f2);
+        lemma_dbcs_units(f2, h.cch, h.hb);
+        let g = dbcs_spec(e, f2, h.cch, h.hb)->Some_0.1;
+        assert(g == dbcs_segs(f2, h.cch, h.hb)->Some_0.1);
+        lemma_skip_spec_total(g, 4 * h.crun);
+        let g2 = skip_spec(g, 4 * h.crun)->Some_0;
+        lemma_skip_spec_total(g2, h.cbext as nat);
+    }
+}
+/// among the first n strings from cursor f (as far as they can be read) one has a header cut off by the end of its fragment
+/// (the real code panics there: C06 finding, so nothing can be said about its result)
+pub open spec fn items_truncated(e: XlsEncoding, f: Seq<Seq<u8>>, n: nat) -> bool
+    decreases n
+{
+    n > 0 && (hdr_truncated(f) || (sst_item(e, f) is Some && items_truncated(e, sst_item(e, f)->Some_0.1, (n - 1) as nat)))
+}
+proof fn lemma_items_truncated_step(e: XlsEncoding, f: Seq<Seq<u8>>, n: nat)
+    requires n > 0, !items_truncated(e, f, n),
+    ensures !hdr_truncated(f), sst_item(e, f) is Some ==> !items_truncated(e, sst_item(e, f)->Some_0.1, (n - 1) as nat),
+{
+}
+proof fn lemma_sst_items_back(e: XlsEncoding, f: Seq<Seq<u8>>, n: nat)
+    requires n > 0, sst_item(e, f) is Some, sst_items(e, sst_item(e, f)->Some_0.1, (n - 1) as nat) is Some,
+    ensures sst_items(e, f, n) is Some,
+{
+}
+
 // own module: keeps the std specifications this function needs (ranges, Vec<String>, TryInto) out of the proof context of the others
 mod m_parse_sst {
 use super::*;
+use super::super::*;
 //@@ fn src/xls.rs parse_sst props=C12,C19 entry ret=res
 //@@ sig
     ensures
@@ -676,10 +737,15 @@ use super::*;
         //# C19.sst_index
         sst_spec(*encoding, frags(*old(r))) is Some ==> res is Ok && res->Ok_0@.len() == sst_count(old(r).data@)
             && forall|i: int| 0 <= i < res->Ok_0@.len() ==> (#[trigger] res->Ok_0@[i])@ == sst_spec(*encoding, frags(*old(r)))->Some_0[i],
+        //# C12.sst_err_iff_malformed
+        // apart from the inputs on which the real code panics (negative count, header cut off: C06 findings), a table is rejected iff it is malformed
+        mem_bounded(frags(*old(r))) && (old(r).data@.len() >= 8 ==> sst_count(old(r).data@) >= 0
+                && !items_truncated(*encoding, adv(frags(*old(r)), 8), sst_count(old(r).data@) as nat))
+            ==> (res is Err <==> sst_spec(*encoding, frags(*old(r))) is None),
         //# C12.sst_frame
         same_record(*old(r), *final(r)),
 //@@ body
-    hide(sst_item); hide(total); hide(frags);
+    hide(sst_item); hide(total); hide(frags); hide(hdr_truncated);
     let ghost r0 = *r;
     let ghost f0 = frags(*r);
     let ghost e = *encoding;
@@ -691,13 +757,16 @@ use super::*;
 //@@ before /for _ in /
     let ghost cnt = sst_count(r0.data@);
     let ghost f8 = frags(*r);
+    let ghost mut ts: Seq<Seq<char>> = Seq::empty();
     proof {
         //# C12.sst_header_8_bytes
         // the strings start right after cstTotal and cstUnique
         assert(r.data@ =~= r0.data@.subrange(8, r0.data@.len() as int));
         lemma_frags_adv(r0, *r, 8);
         assert(cnt >= 0 ==> len == cnt);
-        assert(texts(sst@) =~= Seq::<Seq<char>>::empty());
+        lemma_total_unfold(f0); lemma_total_unfold(f8);
+        assert(f8.drop_first() =~= f0.drop_first());
+        assert(total(f8) <= total(f0));
     }
 //@@ loop 0 it
         invariant
@@ -707,21 +776,45 @@ use super::*;
             sst@.len() == it.index@,
             it.index@ <= len,
             f0.len() >= 1 && f0[0].len() >= 8 && f8 == adv(f0, 8) && cnt == sst_count(f0[0]),
+            ts.len() == sst@.len(),
+            cnt >= 0 && mem_bounded(f0) && !items_truncated(e, f8, cnt as nat) ==>
+                total(frags(*r)) <= total(f0)
+                && !items_truncated(e, frags(*r), (cnt - it.index@) as nat)
+                && (sst_items(e, frags(*r), (cnt - it.index@) as nat) is Some ==> sst_items(e, f8, cnt as nat) is Some),
             cnt >= 0 && sst_items(e, f8, cnt as nat) is Some ==> sst_items(e, frags(*r), (cnt - it.index@) as nat) is Some
-                && sst_items(e, f8, cnt as nat)->Some_0.0 == texts(sst@) + sst_items(e, frags(*r), (cnt - it.index@) as nat)->Some_0.0,
+                && sst_items(e, f8, cnt as nat)->Some_0.0 == ts + sst_items(e, frags(*r), (cnt - it.index@) as nat)->Some_0.0
+                && (forall|i: int| 0 <= i < ts.len() ==> str_view(#[trigger] sst@[i]) == ts[i]),
 //@@ before /sst\.push\(/
         let ghost fi = frags(*r);
         let ghost si = sst@;
-        proof { if cnt >= 0 { lemma_sst_items_step(e, fi, (cnt - it.index@) as nat); } }
+        let ghost ni = (cnt - it.index@) as nat;
+        proof {
+            if cnt >= 0 {
+                lemma_frags_head(*r);
+                lemma_sst_items_step(e, fi, ni);
+                lemma_sst_item_total(e, fi);
+                if !items_truncated(e, fi, ni) { lemma_items_truncated_step(e, fi, ni); }
+            }
+        }
 //@@ after /sst\.push\([^;]*;/
         proof {
+            let ts0 = ts;
             if cnt >= 0 && sst_items(e, f8, cnt as nat) is Some {
                 let t = sst_item(e, fi)->Some_0.0;
                 assert(sst@ == si.push(sst@[si.len() as int]));
+                //# C19.sst_index
+                // the string just read is stored at the next index of the table
                 assert(sst@[si.len() as int]@ == t);
-                assert(texts(sst@) =~= texts(si) + seq![t]);
                 let rest = sst_items(e, frags(*r), (cnt - it.index@ - 1) as nat)->Some_0.0;
-                assert(texts(si) + (seq![t] + rest) =~= texts(sst@) + rest);
+                ts = ts0.push(t);
+                assert(ts0 + (seq![t] + rest) =~= ts + rest);
+            } else {
+                ts = ts0.push(Seq::empty());
+            }
+            if cnt >= 0 && mem_bounded(f0) && !items_truncated(e, f8, cnt as nat) {
+                // the callee returned Ok on a cursor that is neither oversized nor cut inside a header: the string was well-formed
+                assert(sst_item(e, fi) is Some);
+                if sst_items(e, frags(*r), (ni - 1) as nat) is Some { lemma_sst_items_back(e, fi, ni); }
             }
         }
 //@@ before /Ok\(sst\)/
@@ -729,11 +822,13 @@ use super::*;
         if cnt >= 0 && sst_items(e, f8, cnt as nat) is Some {
             lemma_sst_items_len(e, f8, cnt as nat);
             assert(sst_items(e, frags(*r), 0)->Some_0.0 =~= Seq::<Seq<char>>::empty());
-            assert(texts(sst@) + Seq::<Seq<char>>::empty() =~= texts(sst@));
+            assert(ts + Seq::<Seq<char>>::empty() =~= ts);
+            assert(texts(sst@) =~= ts);
         }
     }
 //@@ end
 } // mod m_parse_sst
+} // mod m_rich
 
 // =====================================================================================================
 // Strings held in a single record: ShortXLUnicodeString (2.5.240), XLUnicodeString (2.5.294), XLUnicodeStringNoCch (2.5.296),
@@ -817,6 +912,8 @@ spec fn xl_text(e: XlsEncoding, r: Seq<u8>, b: Biff) -> Seq<char> {
         r@.len() < xl_hdr(biff) ==> res is Err,
 //@@ before /let _ = encoding\.decode_to/
     proof {
+        //# C19.xl_string_offset
+        // the characters start right after the header (2 bytes, 3 with the BIFF8 flag byte)
         assert(r@.subrange(start as int, r@.len() as int) =~= r@.skip(xl_hdr(biff)));
         if xl_wf(*encoding, r@, biff) { lemma_dt_full(*encoding, eff_hb(*encoding, high_byte), r@.skip(xl_hdr(biff)), cch as int); }
     }
@@ -1168,6 +1265,48 @@ proof fn lemma_layouts_read_back_identically(e: XlsEncoding, s1: Seq<Seg>, t1: S
     lemma_dbcs_reads_layout(s2, t2);
     lemma_segs_text_canonical(e, s1);
     lemma_segs_text_canonical(e, s2);
+}
+
+/// non-vacuity of the hypotheses of lemma_layouts_read_back_identically: "AB" once as an 8-bit run continued by a 16-bit run,
+/// once as a single 16-bit run
+proof fn witness_layouts_read_back_identically(e: XlsEncoding)
+    requires enc_is_utf16le(e),
+{
+    let ga = Seg { wide: false, bytes: seq![0x41u8] };
+    let gb = Seg { wide: true, bytes: seq![0x42u8, 0u8] };
+    let gab = Seg { wide: true, bytes: seq![0x41u8, 0u8, 0x42u8, 0u8] };
+    let s1 = seq![ga, gb];
+    let s2 = seq![gab];
+    let z = Seq::<u8>::empty();
+    let e0 = Seq::<Seg>::empty();
+    assert(segs_wide(e0) =~= z);
+    assert(layout_safe(e0));
+    // s2
+    assert(s2.drop_first() =~= e0);
+    assert(seg_wide_bytes(gab) == gab.bytes);
+    assert(segs_wide(s2) =~= gab.bytes + z);
+    assert(segs_wide(s2) =~= seq![0x41u8, 0u8, 0x42u8, 0u8]);
+    assert(!has_bom(gab.bytes) && !has_bom(z) && !has_bom(gab.bytes + z) && !straddle(gab.bytes, z));
+    assert(layout_safe(s2));
+    // s1
+    let t1 = seq![gb];
+    assert(s1.drop_first() =~= t1);
+    assert(t1.drop_first() =~= e0);
+    assert(segs_wide(t1) =~= gb.bytes + z);
+    assert(segs_wide(t1) =~= seq![0x42u8, 0u8]);
+    assert(!has_bom(gb.bytes) && !has_bom(z) && !has_bom(gb.bytes + z) && !straddle(gb.bytes, z));
+    assert(layout_safe(t1));
+    assert(zext(ga.bytes) =~= seq![0x41u8, 0u8]);
+    assert(seg_wide_bytes(ga) =~= seq![0x41u8, 0u8]);
+    assert(segs_wide(s1) =~= seq![0x41u8, 0u8] + segs_wide(t1));
+    assert(segs_wide(s1) =~= seq![0x41u8, 0u8, 0x42u8, 0u8]);
+    let a = seg_wide_bytes(ga); let b = segs_wide(t1);
+    assert((a + b) =~= seq![0x41u8, 0u8, 0x42u8, 0u8]);
+    assert(!has_bom(a) && !has_bom(b) && !has_bom(a + b) && !straddle(a, b));
+    assert(layout_safe(s1));
+    assert(segs_ok(s1) && segs_ok(s2));
+    assert(s1.last() == gb && s2.last() == gab);
+    lemma_layouts_read_back_identically(e, s1, seq![0xEEu8], s2, Seq::<u8>::empty());
 }
 
 } // verus!
